@@ -94,6 +94,8 @@ func (m *Plugin) generateSingleFile(data *codegen.Data) error {
 	}
 
 	if fileExists(data.Config.Resolver.Filename) {
+		// the root resolver type is emitted again below
+		rewriter.MarkEmptyStructCopied(data.Config.Resolver.Type)
 		file.name = data.Config.Resolver.Filename
 		file.imports = rewriter.ExistingImports(file.name)
 		file.RemainingSource = rewriter.RemainingSource(file.name)
